@@ -94,7 +94,8 @@ def sha(path):
 
 
 def correspondence(ctx, batch):
-    # the effect-trace model on the abstract fault positions (the tie to the real process is the falsifier run)
+    real_process_tie(ctx, batch)
+    # the effect-trace model on the abstract fault positions
     for existing in (False, True):
         for step in (None, "argparse", "loadErr", "validateErr", "pipelineErr"):
             for out in (None, "out.py", ""):
@@ -113,6 +114,54 @@ def correspondence(ctx, batch):
                 else:
                     want = {"exit": 2 if step == "argparse" else 1, "stdout": "", "files": files}
                 batch.add(req, {"ok": want}, {"step": step, "existing": existing, "output": out})
+
+
+ARGPARSE_FAULTS = ("unknown-framework", "unknown-option", "bad-max-literals")
+
+
+def real_process_tie(ctx, batch):
+    """the effect-trace model against real processes: for every fault kind (one position) and the good runs, with and
+    without -o / an existing target, the model's Outcome for the classified step (argparse -> exit 2; any later step
+    -> exit 1; success -> the text) against (exit status, stdout, content of out.py) of the real command. The code of a
+    successful run is the real stdout of the same command without -o; the header's clock line is removed on both sides."""
+    cases = [c for c in fault_cases() if "/" not in c[0] or c[0].endswith("/middle") or c[0].endswith("/alone")]
+    combos = [(False, False), (True, False), (True, True)]            # (with -o, target exists)
+
+    def no_clock(text):
+        # the header's clock line and its echo of the command line (which differs by the -o argument)
+        return "\n".join(l for l in text.split("\n")
+                         if not l.startswith("generated by json2python-models") and not l.startswith("command: "))
+
+    with tempfile.TemporaryDirectory(prefix="j2m-c17t-") as root:
+        jobs, metas = [], []
+        for k, (name, files, argv, expect_fail) in enumerate(cases):
+            for with_o, existing in combos:
+                d = os.path.join(root, "t%d_%d%d" % (k, with_o, existing))
+                os.makedirs(d)
+                clitools.write_files(d, files)
+                if existing:
+                    with open(os.path.join(d, "out.py"), "w") as f:
+                        f.write(OLD)
+                jobs.append((argv + (["-o", "out.py"] if with_o else []), d, ctx.repo))
+                metas.append((name, expect_fail, with_o, existing, d))
+        results = clitools.run_many(jobs)
+        left = []
+        for (name, expect_fail, with_o, existing, d) in metas:
+            t = os.path.join(d, "out.py")
+            left.append(open(t, encoding="utf-8").read() if os.path.exists(t) else None)
+    plain = {name: out for (name, _, with_o, _, _), (rc, out, err) in zip(metas, results) if not with_o}
+    for (name, expect_fail, with_o, existing, d), (rc, out, err), target in zip(metas, results, left):
+        files = [["out.py", OLD]] if existing else []
+        step = None if not expect_fail else ("argparse" if name.split("/")[0] in ARGPARSE_FAULTS else "loadErr")
+        code = no_clock(plain[name])[:-1] if not expect_fail else ""          # `print` adds the final newline
+        req = {"op": "clirun", "code": code, "header": "", "output": "out.py" if with_o else None, "files": files,
+               "argparseOk": step != "argparse"}
+        if step == "loadErr":
+            req["loadErr"] = "boom"
+        got_files = [] if target is None else [["out.py", no_clock(target) if target != OLD else target]]
+        ans = {"ok": {"exit": rc, "stdout": no_clock(out), "files": got_files}}
+        batch.add(req, ans, {"fault": name, "with_o": with_o, "existing": existing})
+        ctx.count("real_process_tie")
 
 
 def falsify(ctx):
